@@ -6,33 +6,38 @@ Programs on stdin are separated by a line `;;;===`.
 -/
 import SteelVerif.C08.Spec
 namespace SteelVerif.C08
-open SteelVerif.Base (Reader)
+open SteelVerif.Base
 
 partial def readAll (h : IO.FS.Stream) (acc : String) : IO String := do
   let l ← h.getLine
   if l.isEmpty then return acc else readAll h (acc ++ l)
 
 def countEvents (evs : List String) : String :=
-  let names := ["capture", "invoke", "leave", "reenter", "enter", "exit", "exit-error", "handled", "reset", "shift", "dinvoke"]
+  let names := ["capture", "invoke", "leave", "reenter", "enter", "exit", "exit-error", "handled", "reset", "shift", "dinvoke", "d12", "mc-cross", "orphan-invoke"]
   ",".intercalate (names.map fun n => s!"{n}={(evs.filter (· == n)).length}")
 
-def runProgram (st0 : St) (src : String) : String :=
+def runProgram (impl : Bool) (st0 : St) (src : String) : String :=
   match Reader.read src with
   | none => "\u001eB\n\n\u001eE syntax"
   | some forms =>
-    let (vals, outcome, st) := evalProgram 3000000 forms st0
+    let (vals, outcome, st) := evalProgram impl 3000000 forms st0
     let out := String.join st.out.reverse
     let evs := countEvents st.events
     match outcome with
     | none => s!"\u001eB\n{out}\n\u001eV {"\u001f".intercalate vals}\n\u001eC {evs}"
     | some o => s!"\u001eB\n{out}\n\u001eE {o}\n\u001eC {evs}"
 
-def mainC08 (_args : List String) : IO Unit := do
+def mainC08 (args : List String) : IO Unit := do
   let src ← readAll (← IO.getStdin) ""
-  let st0 := { initState with events := [] }
+  -- `equal`: S with the winders comparison of the unfixed parameters.scm (finding K08a);
+  -- `impl`: additionally reset/shift/with-handler as stdlib.scm implements them (finding K08b).
+  -- `mc`: only the stdlib.scm encoding (what the engine does once the winders comparison is fixed).
+  let impl := args.contains "impl" || args.contains "mc"
+  let st0 := if impl then { implInitState with events := [], eqMode := args.contains "impl" }
+             else { initState with events := [], eqMode := args.contains "equal" }
   for prog in src.splitOn "\n;;;===\n" do
     if prog.trimAscii.toString ≠ "" then
-      IO.println (runProgram st0 prog)
+      IO.println (runProgram impl st0 prog)
 
 end SteelVerif.C08
 
